@@ -22,6 +22,7 @@
 #include <sys/types.h>
 #include <sys/un.h>
 #include <unistd.h>
+#include <sys/wait.h>
 #include <algorithm>
 #include <random>
 
@@ -40,6 +41,7 @@ int __real_ftruncate(int, off_t);
 int __real_fsync(int);
 int __real_socket(int, int, int);
 int __real_socketpair(int, int, int, int[2]);
+int __real_pipe(int[2]);
 int __real_bind(int, const struct sockaddr *, socklen_t);
 int __real_listen(int, int);
 int __real_accept(int, struct sockaddr *, socklen_t *);
@@ -472,6 +474,15 @@ int __wrap_socketpair(int domain, int type, int proto, int sv[2])
     return 0;
 }
 
+int __wrap_pipe(int fds[2])
+{
+    if (!g_active) return __real_pipe(fds);
+    tick();
+    fds[0] = placeholderFd(); fds[1] = placeholderFd();
+    g_net.newPipe(fds[0], fds[1]);
+    return 0;
+}
+
 int __wrap_bind(int fd, const struct sockaddr *sa, socklen_t len)
 {
     SockEnt *s = g_net.sock(fd);
@@ -678,22 +689,11 @@ int __wrap_epoll_wait(int epfd, struct epoll_event *evs, int maxev, int timeoutM
     }
 }
 
-int __wrap_main(int argc, char **argv)
+static int runScenario(const char *self, const char *scnPath, const char *rundir, const char *histPath)
 {
-    // usage: simsquid <scenario.scn> <rundir>   (anything else: behave like squid)
-    if (argc < 3 || strstr(argv[1], ".scn") == nullptr) return __real_main(argc, argv);
-    if (!getenv("VERIF_NO_ASLR_REEXEC")) {
-        int pers = personality(0xffffffff);
-        if (pers != -1 && !(pers & ADDR_NO_RANDOMIZE)) {
-            personality(pers | ADDR_NO_RANDOMIZE);
-            setenv("VERIF_NO_ASLR_REEXEC", "1", 1);
-            setenv("TZ", "UTC", 1); setenv("LC_ALL", "C", 1);
-            execv("/proc/self/exe", argv);
-        }
-    }
     std::string err;
-    if (!parseScenario(argv[1], g_scn, err)) { fprintf(stderr, "SIM: %s\n", err.c_str()); return 3; }
-    g_scn.rundir = argv[2];
+    if (!parseScenario(scnPath, g_scn, err)) { fprintf(stderr, "SIM: %s\n", err.c_str()); return 3; }
+    g_scn.rundir = rundir;
     wallStartReal = realWallS();
     g_now = g_scn.clockStartUs;
     g_tickRng.seed(hashStr(g_scn.seed, "tick")); g_schedRng.seed(hashStr(g_scn.seed, "sched")); g_ioRng.seed(hashStr(g_scn.seed, "io"));
@@ -707,8 +707,8 @@ int __wrap_main(int argc, char **argv)
         if (fd < 0) { fprintf(stderr, "SIM: cannot write %s\n", p.c_str()); return 3; }
         wrAll(fd, body); __real_close(fd);
     }
-    histOpen(argc > 3 ? argv[3] : g_scn.rundir + "/run.hist");
-    std::vector<std::string> av; av.push_back(argv[0]);
+    histOpen(histPath ? histPath : (g_scn.rundir + "/run.hist").c_str());
+    std::vector<std::string> av; av.push_back(self);
     for (auto a : g_scn.argv) { for (size_t i; (i = a.find("@RUN@")) != std::string::npos;) a.replace(i, 5, g_scn.rundir); av.push_back(a); }
     static std::vector<char *> cav; for (auto &a : av) cav.push_back(strdup(a.c_str())); cav.push_back(nullptr);
     g_active = true;
@@ -716,7 +716,45 @@ int __wrap_main(int argc, char **argv)
     hist("LIFE\tstart");
     g_net.init();
     atexit([] { hist("LIFE\texit"); for (auto &p : g_probes) hist("PROBE\t%s\t%llu", p.first.c_str(), (unsigned long long)p.second); hist("END\texit"); histFlush(); for (auto &n : g_shmNames) __real_shm_unlink(n.c_str()); });
-    return __real_main((int)av.size(), cav.data());
+    return __real_main((int)av.size() - 0, cav.data());
+}
+
+int __wrap_main(int argc, char **argv)
+{
+    // usage: simsquid <scenario.scn> <rundir> [hist]  |  simsquid --server   (anything else: behave like squid)
+    const bool server = argc >= 2 && !strcmp(argv[1], "--server");
+    if (!server && (argc < 3 || strstr(argv[1], ".scn") == nullptr)) return __real_main(argc, argv);
+    if (!getenv("VERIF_NO_ASLR_REEXEC")) {
+        int pers = personality(0xffffffff);
+        if (pers != -1 && !(pers & ADDR_NO_RANDOMIZE)) {
+            personality(pers | ADDR_NO_RANDOMIZE);
+            setenv("VERIF_NO_ASLR_REEXEC", "1", 1);
+            setenv("TZ", "UTC", 1); setenv("LC_ALL", "C", 1);
+            execv("/proc/self/exe", argv);
+        }
+    }
+    if (!server) return runScenario(argv[0], argv[1], argv[2], argc > 3 ? argv[3] : nullptr);
+    // fork server: one job per line "scn rundir hist"; process creation by exec is pathologically slow under load in this sandbox
+    char line[4096];
+    while (fgets(line, sizeof(line), stdin)) {
+        char a[1400], b[1400], c[1400];
+        if (sscanf(line, "%1399s %1399s %1399s", a, b, c) != 3) continue;
+        fflush(stdout);
+        pid_t pid = __real_fork();
+        if (pid == 0) {
+            std::string logp = std::string(b) + "/stdio.log";
+            int lf = __real_open(logp.c_str(), O_WRONLY | O_CREAT | O_APPEND, 0644);
+            if (lf >= 0) { dup2(lf, 1); dup2(lf, 2); __real_close(lf); }
+            int dn = __real_open("/dev/null", O_RDONLY); if (dn >= 0) { dup2(dn, 0); __real_close(dn); }
+            if (chdir(b) != 0) _exit(3);
+            exit(runScenario(argv[0], a, b, c));
+        }
+        int st = 0;
+        if (pid < 0 || __real_waitpid(pid, &st, 0) < 0) { printf("rc 998\n"); fflush(stdout); continue; }
+        int rc = WIFEXITED(st) ? WEXITSTATUS(st) : 128 + WTERMSIG(st);
+        printf("rc %d\n", rc); fflush(stdout);
+    }
+    return 0;
 }
 
 } // extern "C"
